@@ -684,23 +684,28 @@ package storage
 //@   loop 1 invariant[image] old(tupleIs(r, len(r.Relation.Fields))) && strsFit(len(r.Relation.Fields)) ==>
 //@              bufw(buf) == atPos(rangeindex+1) && tupleImage(buf, 0, rangeindex+1)
 
+// visited(c): c has been handed to the scan callback (history ghost: set at every callback call of scanRight, outside every frame).
+//@ ghost history var visited(c *leafCell) bool
 //@ func (b *BTree) scanRight(f func(kv *leafCell) (ScanAction, error)) error
 //@   props C01 C02 C11 C13
 //@   requires fsLocked(fsOf(b))
 //@   requires btOK(b)
 //@   callback f(kv) guarantees kv != nil && kv.pg != nil && !kv.deleted
 //@   callback f(kv) guarantees leafShape(kv.pg)
+//@   callback f(kv) marks visited(kv)
 //@   callback f(kv) guarantees[pos; C01; witness p=curindex] exists p int :: 0 <= p && p < cnt(kv.pg) && lc(kv.pg, p) == kv
 //@   callback f preserves all(btreeNode.offsets), all(btreeNode.leafCells), all(btreeNode.internalCells), all(btreeNode.isLeaf),
 //@              all(btreeNode.hasRSib), all(btreeNode.rSibFileOffset), all(btreeNode.fileOffset), all(leafCell.key), all(leafCell.deleted),
 //@              allelems(uint16), allelems(*leafCell), allelems(*internalCell),
 //@              @cacheState, all(fileStore.cache), all(fileStore.file), all(fileStore.autoFlushCache), all(LRUCache.list), all(LRUCache.cache), all(LRUCache.maxNodes),
-//@              all(list.Element.Value), all(cacheEntry.key), all(BTree.store), txn
+//@              all(list.Element.Value), all(cacheEntry.key), all(BTree.store), txn, visited
 //@   modifies all(leafCell.pg), listLen(fsOf(b).cache.list), listAt(fsOf(b).cache.list), listPos, listOf, mapof(fsOf(b).cache.cache), all(cacheEntry.val)
 //@   ensures btOK(b)
 //@   loop 1 invariant btOK(b) && fsLocked(fsOf(b)) && nodeOK(pg)
 //@   loop 2 invariant btOK(b) && fsLocked(fsOf(b)) && pg != nil && leafShape(pg)
 //@   loop 3 invariant btOK(b) && fsLocked(fsOf(b)) && pg != nil && leafShape(pg)
+//@   loop 3 invariant[visit; C01] forall j int :: 0 <= j && j <= rangeindex ==> lc(pg,j).deleted || visited(lc(pg,j))
+//@   loop 3 exit[leaf.complete; C01] forall j int :: 0 <= j && j < cnt(pg) ==> lc(pg,j).deleted || visited(lc(pg,j))
 
 // ---- relation service: LSN protocol (C02), error frames (C14), statement bracket (C13) ----
 
